@@ -8,11 +8,25 @@ VERIF = os.path.dirname(os.path.dirname(os.path.abspath(__file__)))
 NA = {
     "C01": "the sampled law of a floating-point rejection sampler is a measure-theoretic/numerical fact; no sound static argument in reach bounds a Kolmogorov distance; its shape-visible clauses are decided under C03/C04/C07 (DESIGN.md 5/C01)",
     "C02": "the sampled pmf (BTPE/H2PE squeeze constants, float recurrences) is numerical; not decidable from code shape (DESIGN.md 5/C02)",
-    "C10": "proportional sampling and never-zero-weight depend on the numeric descent over runtime weights; its shape-visible clauses (error return, child index maps) are decided under C09 (DESIGN.md 5/C10)",
 }
 PENDING = "check under construction in this session (see DESIGN.md 10 build order)"
 
 CHECKS = {
+    "C10": dict(
+        category="other",
+        text="Structural clauses of the descent in try_sample, for every extracted weight type: the target is random_range(ZERO..root subtotal); a "
+             "path-sensitive walk of one loop iteration (every feasible path, drop flags followed) shows that each comparison is target' < subtotal(child) "
+             "with child in {2i+1, 2i+2} and target' = target minus exactly the children already ruled out, that a true outcome moves the index to that "
+             "child, that the all-false path subtracts both children and selects the node, that the comparisons are strict and that the returned index is "
+             "the walked one. This is the statement 'at every node [0, subtotal) is cut into [left | right | self]', from which proportional sampling "
+             "follows for every consistent tree (C09) — for every tree shape and history, which a test of a few trees cannot show.",
+        design_ref="DESIGN.md 5/C10 and 11.7",
+        note="NOT decided: rounding of the float subtractions (the two final assertions are reported as undischarged panic edges under C03), consistency of the "
+             "stored subtotals (C09's structural clauses; the inductive invariant over histories is not proved), empirical frequencies. The error clause "
+             "(InsufficientNonZero iff empty or zero total) is decided under C09 R6. The order of the two children is free (a right-first descent passes).",
+        technique="path-sensitive dataflow over one loop iteration of the rustc MIR (symbolic accumulator of subtracted child subtotals, affine index forms by value numbering)",
+        engine="rdx+E4",
+    ),
     "C12": dict(
         category="other",
         text="The algebraic clauses of the four unit-geometry samplers x f32/f64, decided symbolically from terms extracted from the MIR (one symbol per "
